@@ -110,7 +110,7 @@ class C03(Check):
             parties.append(WindowReader(rs["wread%d" % k], cfg, b))
         parties.append(actors.Operator(rs["oper"], {"dirty_p": 0.0}))
         weights = {"importer": 1.0, "editor": 0.8, "wreader": 3.0, "operator": 0.1}
-        nsteps = r.choice([3, 6, 10, 20, 40])
+        nsteps = r.choice([3, 6, 10, 20, 40] + ([80, 160] if tier == "thorough" else []))
         steps += actors.schedule(rs["sched"], parties, weights, nsteps)
         if r.random() < 0.5:
             long_events(rs["long"], steps)
